@@ -81,6 +81,25 @@ func genTree(rt *rapid.T, label string, depth int, budget *int, allowDot bool) [
 	return out
 }
 
+// wideFolder: in one case of forty the tree also has a folder with 254-300 tiny files, so that the whole transfer has
+// more items than fit one byte of the 16-bit item count.
+func wideFolder(rt *rapid.T, kids []*tnode) []*tnode {
+	if rapid.IntRange(0, 39).Draw(rt, "wide") != 0 {
+		return kids
+	}
+	for _, k := range kids {
+		if k.name == "wide" {
+			return kids
+		}
+	}
+	n := rapid.SampledFrom([]int{254, 255, 256, 257, 300}).Draw(rt, "wideItems")
+	nd := &tnode{name: "wide", dir: true}
+	for i := 0; i < n; i++ {
+		nd.kids = append(nd.kids, &tnode{name: fmt.Sprintf("w%03d", i), data: []byte{byte(i), byte(i >> 8)}[:i%3]})
+	}
+	return append(kids, nd)
+}
+
 func sortKids(k []*tnode) []*tnode {
 	s := append([]*tnode{}, k...)
 	sort.Slice(s, func(i, j int) bool { return s[i].name < s[j].name })
@@ -282,6 +301,7 @@ func c10download(ev *evid.Rec) func(rt *rapid.T) {
 			budget = 300
 		}
 		kids := genTree(rt, "t", 0, &budget, true)
+		kids = wideFolder(rt, kids)
 		script := rapid.SliceOfN(rapid.IntRange(0, 9), 60, 60).Draw(rt, "script")
 		offs := rapid.SliceOfN(rapid.IntRange(0, 1000), 60, 60).Draw(rt, "offsets")
 		own := rapid.IntRange(0, 3).Draw(rt, "ownroot") == 0
@@ -336,6 +356,7 @@ func c10upload(ev *evid.Rec) func(rt *rapid.T) {
 			budget = 200
 		}
 		kids := genTree(rt, "t", 0, &budget, false)
+		kids = wideFolder(rt, kids)
 		all := flatten(nil, kids, false)
 		// server pre-seeding: some files already complete, some partial
 		seed := map[string]int{} // path -> -1 complete, >=0 partial length
